@@ -344,7 +344,8 @@ def d1_dicts(chk: Check) -> None:
             text = "{} value, mode {}".format(kind, m)
             got = [src(n.value) for n in stores]
             if m == "LEFT":
-                firsts = [x for x in res if not isinstance(x, ast.Expr)]
+                firsts = [x for x in res
+                          if not isinstance(x, (ast.Expr, ast.Pass))]
                 ok = not stores and firsts and \
                     isinstance(firsts[0], ast.Continue)
                 want = "no store (continue)"
